@@ -325,7 +325,7 @@ type filterInput struct {
 	Unreadable []string `json:"unreadable,omitempty"`
 	// Model: the case was enumerated by TLC from spec/FilterWalkMC.tla; what the ALGORITHM model reports for it
 	Model *filterModel `json:"model,omitempty"`
-	API        string   `json:"api"`
+	API   string       `json:"api"`
 	// Follow: FollowPaths of the filter; their resolution is appended to the include list (in that order)
 	Follow []string `json:"follow,omitempty"`
 }
